@@ -1074,6 +1074,20 @@ func (ex *Exec) doAppend(c *ssa.CallCommon, args []Val, pos token.Pos) Val {
 	ex.assume(Imp(inpl, Forall([]BVar{{"j!a", SInt}}, Imp(Or(Lt(jq, Add(roff, SlLen(s.T))), Ge(jq, Add(roff, newlen))),
 		Eq(Select(Select(A2, rb), jq), Select(Select(A, rb), jq))))))
 	ex.setHeap(ex.cur, name, A2)
+	if es == SStr {
+		// the set of string identities of the result (sidset): old elements plus the appended ones
+		ex.needSid = true
+		setS := ArrS(SInt, SBool)
+		sNew := ex.D.Fn("sidsetf", setS, Select(A2, rb), roff, Add(roff, newlen))
+		sOld := ex.D.Fn("sidsetf", setS, Select(A, SlBase(s.T)), SlOff(s.T), Add(SlOff(s.T), SlLen(s.T)))
+		if cnt, ok := n.IntVal(); ok && cnt == 1 {
+			ex.assume(Eq(sNew, Store(sOld, Sid(Select(Select(A, SlBase(t.T)), SlOff(t.T))), True)))
+		} else {
+			sAdd := ex.D.Fn("sidsetf", setS, Select(A, SlBase(t.T)), SlOff(t.T), Add(SlOff(t.T), n))
+			kq := BV("k!a", SInt)
+			ex.assume(Forall([]BVar{{"k!a", SInt}}, Eq(Select(sNew, kq), Or(Select(sOld, kq), Select(sAdd, kq)))))
+		}
+	}
 	r := ex.D.Fresh("append", SSlice)
 	ex.assume(Eq(r, MkSlice(rb, roff, newlen, rcap)))
 	return Val{T: r, Ty: c.Args[0].Type()}
